@@ -686,3 +686,24 @@ def median_member_is_an_eligible_member_holding_the_median_weighted_burnup(n: in
     above = sum(1 for i in el if bs[i] * vs[i] > k)
     m = len(el)
     assert 2 * below <= m and 2 * above <= m, "it holds a median of the weighted burnups: at most half the members lie strictly below, at most half above"
+
+
+@lemma(gen=dict(GEN7, swap=[False, True]))
+def a_blocks_group_does_not_depend_on_its_neighbours_in_the_list(nt: int, B1: float, U1: float, U2: float, bu: float, T: float, bu2: float, T2: float, swap: bool):
+    """two blocks of DIFFERENT cross-section types in one call, in either order: type AA uses temperature groups (its
+    options name the isotope U238), type BA does not (empty xsTempIsotope): each block's group is determined by its own
+    type, burnup and temperature - a block without temperature isotope is in temperature group 0 whatever the block
+    visited before it landed in.  One burnup bound, 1..2 temperature bounds (enumerated), values symbolic."""
+    nt = choose(nt, 1, 2)
+    tb = [U1, U2][:nt]
+    assume(0 < B1 and B1 <= 100)
+    assume(all(u >= -273.15 for u in tb) and all(tb[i] <= tb[i + 1] for i in range(nt - 1)))
+    m = manager([B1], tb, "U238")
+    m.cs[xsgm.CONF_CROSS_SECTION]["BA"] = new(XsOpts, xsTempIsotope="")
+    hot = env_block(bu, T, 0)
+    plain = env_block(bu2, T2, 0)
+    plain.xsID = "BA"
+    m._updateEnvironmentGroups([plain, hot] if swap else [hot, plain])
+    nBu = 2
+    assert hot.p.envGroupNum % nBu == first_index(bu, [B1]) and hot.p.envGroupNum // nBu == first_index(T, tb), "the type with a temperature isotope: (temperature group, burnup group)"
+    assert plain.p.envGroupNum == first_index(bu2, [B1]), "the type without one: temperature group 0, whatever came before it in the list"
